@@ -36,6 +36,7 @@ type C01Script struct {
 
 type C01Scenario struct {
 	core.Base
+	ShareOpts bool `json:"share_opts,omitempty"` // option values created once and reused by all subscriptions (see World.ShareOptions)
 	Pool    []int       `json:"pool"` // event types whose counts are checked after every operation
 	Ops     []C01Op     `json:"ops"`
 	Scripts []C01Script `json:"scripts"`
@@ -142,6 +143,7 @@ func genC01(rt *rapid.T) core.Scenario {
 			fix(&sc.Scripts[i].Ops[j])
 		}
 	}
+	sc.ShareOpts = rapid.IntRange(0, 2).Draw(rt, "shareOpts") == 2
 	sc.Tape = core.DrawTape(rt, 200)
 	return sc
 }
@@ -355,6 +357,7 @@ func (sc *C01Scenario) Execute(t *testing.T) *core.Outcome {
 	reentrant := 0
 	body := func() {
 		w = NewWorld()
+		w.ShareOptions = sc.ShareOpts
 		client := simrt.Current()
 		scripts := sc.scriptMap()
 		calls := map[[2]int]int{}
